@@ -175,6 +175,9 @@ class ListTree:
             from_node = self._find(self._root, *from_parts)
         except KeyError:
             return []
+        if from_name == 'INBOX':
+            # inferior names of INBOX are unaffected by a rename of INBOX
+            return [(from_name, to_name)]
         from_names = (entry.name for entry in self._iter(from_node, from_name)
                       if entry.exists)
         to_names = (entry.name for entry in self._iter(from_node, to_name)
